@@ -430,7 +430,7 @@ def expected(kind, pre, ln):
             if not ok:
                 return None, "append stored %s for item %d" % (v, k)
         return None, None
-    if op in ("convert", "serde_rt", "clone_swap", "shrink_to_fit", "capacity", "reserve", "reserve_exact",
+    if op in ("convert", "serde_rt", "clone_swap", "clone_from", "shrink_to_fit", "capacity", "reserve", "reserve_exact",
               "try_reserve", "try_reserve_exact", "iter", "into_iter", "into_vec", "into_sorted_vec", "into_asc_vec",
               "into_desc_vec", "into_sorted_iter", "eq", "clone_check", "len", "is_empty", "load"):
         if op == "serde_rt" and t[0] != "ok":
@@ -740,17 +740,21 @@ def j_capacity(kind, pre, ln):
     """C17"""
     if pre is None:
         return None
-    if ln.op in ("reserve", "reserve_exact", "try_reserve", "try_reserve_exact", "shrink_to_fit", "capacity"):
-        n = int(ln.args[0]) if ln.args else 0
+    if ln.op in ("reserve", "reserve_exact", "try_reserve", "try_reserve_exact", "shrink_to_fit", "capacity", "try_reserve_oom", "fresh"):
+        n = int(ln.args[-1]) if ln.args else 0
+        if ln.op == "fresh":
+            n = 0
         if ln.fault:
             if ln.op in ("reserve", "reserve_exact") and n >= 2 ** 61 and ln.res == "fault capacity":
                 return None
             return "%s %d: %s" % (ln.op, n, ln.res)
         if ln.res.startswith("capbad"):
             return ln.res
+        if ln.res.startswith("err-but"):
+            return "%s: %s" % (ln.op, ln.res)
         if ln.op.startswith("try_") and n >= 2 ** 61 and ln.res != "err":
             return "%s(%d) answered %s" % (ln.op, n, ln.res)
-        if ln.snap is not None and (ln.snap.map != pre.map or ln.snap.heap != pre.heap or ln.snap.qp != pre.qp):
+        if ln.op != "fresh" and ln.snap is not None and (ln.snap.map != pre.map or ln.snap.heap != pre.heap or ln.snap.qp != pre.qp):
             return "%s changed the queue" % ln.op
     return None
 
